@@ -2,9 +2,11 @@
 # Build the framework from files on disk only (offline).
 cd "$(dirname "$0")"
 export CARGO_NET_OFFLINE=true
+V="$(pwd)"
+export CARGO_TARGET_DIR="$V/.build/cargo"
 mkdir -p .build/tmp evidence replays
 (cd harness && cargo build --release --offline) || echo "setup: harness build failed"
-cargo build --offline --manifest-path /repo/Cargo.toml -p rsjsonnet --target-dir /verif/.build/cli || echo "setup: cli build failed"
+cargo build --offline --manifest-path /repo/Cargo.toml -p rsjsonnet --target-dir "$V/.build/cli" || echo "setup: cli build failed"
 # Lean: property modules of the claimed checks and their model drivers, one target at a
 # time so that one broken module cannot block the rest (each check rebuilds what it needs).
 props=$(python3 -c "import json;print(' '.join(c['property_id'] for c in json.load(open('MANIFEST.json'))['checks']))")
